@@ -113,6 +113,29 @@ def build_case(case):
             # cells: the n variables, the alias, and one cell per by-reference parameter (it holds the slot id in
             # every calling convention)
             return pt.Seq(*body, pt.Int(1)), n + 3
+        if placement == "abi_byref":
+            # a variable passed BY REFERENCE to an ABI-returning subroutine (keyword-only output) behind / in front of
+            # an ABI argument: the callee's write lands in that variable, the neighbours keep their values
+            vs = [mk(i) for i in range(n)]
+            kk, r1, r2 = abi.Uint64(), abi.Uint64(), abi.Uint64()
+
+            def add_last(k, v, *, output):
+                return pt.Seq(v.store(v.load() + k.get()), output.set(v.load() + pt.Int(1)))
+            add_last.__annotations__ = {"k": abi.Uint64, "v": pt.ScratchVar, "output": abi.Uint64, "return": pt.Expr}
+            add_last_s = pt.ABIReturnSubroutine(add_last)
+
+            def add_first(v, k, *, output):
+                return pt.Seq(v.store(v.load() + k.get() + pt.Int(2)), output.set(v.load()))
+            add_first.__annotations__ = {"v": pt.ScratchVar, "k": abi.Uint64, "output": abi.Uint64, "return": pt.Expr}
+            add_first_s = pt.ABIReturnSubroutine(add_first)
+            body = [v.store(M(i)) for i, v in enumerate(vs)] + [kk.set(pt.Int(7))]
+            for i in sorted(set([0, n // 2, n - 1])):
+                body += [r1.set(add_last_s(kk, vs[i])), pt.Assert(vs[i].load() == M(i) + pt.Int(7)),
+                         pt.Assert(r1.get() == M(i) + pt.Int(8)),
+                         r2.set(add_first_s(vs[i], kk)), pt.Assert(vs[i].load() == M(i) + pt.Int(16)),
+                         pt.Assert(r2.get() == M(i) + pt.Int(16)), pt.Assert(kk.get() == pt.Int(7)), vs[i].store(M(i))]
+            body += checks(vs, range(n))
+            return pt.Seq(*body, pt.Int(1)), n + 9
         if placement == "main_branch":
             # everything happens in a block that is NOT the routine's entry block, and every cell is read back
             # right after it was written (adjacent store/load: the shape the slot optimiser looks for)
@@ -275,7 +298,7 @@ def check_case(case, out):
             cnt["executions"] = cnt.get("executions", 0) + 1
             if res.verdict != "APPROVE":
                 why = "program with %d cells does not approve: %s %s at line %s" % (cells, res.verdict, res.why, res.line)
-            elif case["kind"] in ("scratchvar", "dyn") and case["placement"] in ("main", "main_branch", "twin_blocks", "dyn_byref") and any(
+            elif case["kind"] in ("scratchvar", "dyn") and case["placement"] in ("main", "main_branch", "twin_blocks", "dyn_byref", "abi_byref") and any(
                     res.scratch[sid] != 100000 + i for i, sid in req_pattern(case["req"], case["n"]).items()):
                 # "an explicitly requested slot id is the slot actually used"
                 bad_ = [(i, sid, res.scratch[sid]) for i, sid in req_pattern(case["req"], case["n"]).items() if res.scratch[sid] != 100000 + i]
@@ -331,6 +354,7 @@ def run(tier):
             for req in ("none", "top", "low_block"):
                 for cfg in cfgs:
                     items.append({"n": n, "req": req, "placement": "twin_blocks", "kind": "scratchvar", "cfg": cfg.to_json()})
+                    items.append({"n": n, "req": req, "placement": "abi_byref", "kind": "scratchvar", "cfg": cfg.to_json()})
         if n <= 130:
             for req in ("none", "top", "both", "low_block", "mid_block", "interleaved"):
                 for kind in ("scratchvar", "dyn"):
